@@ -367,8 +367,12 @@ def _check_predict(ctx, f):
         # enumerate index of the same fold slices
         fill_s = _filled_by(f, du, T, sname, prog)
         fill_t = _filled_by(f, du, T, tname, prog)
-        ctx.check(fill_s is not None and fill_t is not None
-                  and fill_s == fill_t, "C11b-lockstep", f,
+        if fill_s is None or fill_t is None:
+            raise AnalysisError(
+                f"{f.qual}: how the per-fold lists '{sname}' / '{tname}' "
+                "are filled is written in a form the rule does not read "
+                f"({'scores' if fill_s is None else 'targets'} side)")
+        ctx.check(fill_s == fill_t, "C11b-lockstep", f,
                   "per-fold score list and per-fold target list are filled "
                   "from the same fold slices under the same fold index",
                   f"score list filled from {_sh(fill_s)}, target list "
@@ -544,6 +548,12 @@ def _filled_by(f, du, T, lname, prog=None):
             srcs = [x for x in srcs if root_name(x) != lname]
             if len({tkey(x) for x in srcs}) == 1:
                 return (srcs[0], "aligned")
+            return None
+        if recv[0] == "sub" and root_name(recv[1]) == lname and any(
+                x == POS for x in walk_term(recv[2])):
+            # a slot computed from the position, but not the position
+            # itself (k - 1, k + 1 ...): read, and not aligned
+            return (recv[2], "shifted")
         return None
     # through predict_fold(model=.., fold=k, psms=slices[k], scores=lname)
     if prog is not None:
